@@ -197,6 +197,42 @@ fn main() {
         };
         println!("HS|{}|{}|{}|{}|{}|{}|{}", fi, sp.name, threads * rounds, e1 - e0, st, WRONG.load(Ordering::SeqCst), cons);
     }
+    // concurrent RESETS (C15): k lookups, then every thread calls `stats_registry::reset(name)` at once, then (no lookup in
+    // between) the counters must read 0 / 0; then k lookups again must read exactly k.  A reset that is not one atomic
+    // overwrite per counter (snapshot-and-subtract, read-modify-write) lets two overlapping resets wrap a counter.
+    for sp in specs.iter().filter(|s| !s.thread && !s.has_pred && s.ttl.is_none()).take(2) {
+        let fi = sp.idx;
+        rt::NEXT_TL.with(|n| n.set(Some(rt::Next { n: 1, ok: true, len: 4, ci: true, io: false })));
+        let _ = corpus::CALLS[fi](0);
+        let mut bad = 0u64;
+        let mut worst = String::new();
+        let reps = (rounds / 4).max(200);
+        for rep in 0..reps {
+            let k = 1 + (rep % 3);
+            for _ in 0..k {
+                rt::NEXT_TL.with(|n| n.set(Some(rt::Next { n: 1, ok: true, len: 4, ci: true, io: false })));
+                let _ = corpus::CALLS[fi](0);
+            }
+            let barrier = Arc::new(Barrier::new(threads.min(4)));
+            let mut hs = Vec::new();
+            for _ in 0..threads.min(4) {
+                let (barrier, name) = (barrier.clone(), sp.name.clone());
+                hs.push(std::thread::spawn(move || {
+                    barrier.wait();
+                    cachelito_core::stats_registry::reset(&name);
+                }));
+            }
+            join_all(&mut hs, "concurrent-resets", fi, &sp.name);
+            let st = verif_harness::l2::stats_of(&sp.name);
+            if st != "0,0" {
+                bad += 1;
+                if worst.is_empty() {
+                    worst = st.replace(',', "+");
+                }
+            }
+        }
+        println!("HR|{}|{}|{}|{}|{}", fi, sp.name, reps, bad, if worst.is_empty() { "-".to_string() } else { worst });
+    }
     // memory-aware stores under contention (C05 / C18): every thread stores its own keys with values of about 60 % of
     // max_memory, so that no two of them fit; once all callers have returned the estimated total is within max_memory
     // and every stored key is tracked by the queue
